@@ -102,7 +102,16 @@ impl Ord for TxnHeader {
                         .map(ToString::to_string)
                         .unwrap_or_default();
 
-                    uuid_this.cmp(&uuid_other)
+                    uuid_this
+                        .cmp(&uuid_other)
+                        // tie-break: an absent code/description sorts before an empty one, so that
+                        // headers which differ (`PartialEq`) never compare `Equal`
+                        .then_with(|| self.code.is_some().cmp(&other.code.is_some()))
+                        .then_with(|| {
+                            self.description
+                                .is_some()
+                                .cmp(&other.description.is_some())
+                        })
                 }
             }
         }
